@@ -106,7 +106,11 @@ func autoDiscover(ctx context.Context, params discoverParams) []dsModels.Discove
 		ipnets = append(ipnets, ipnet)
 		// compute the estimate total amount of network probes we are going to make
 		// this is an estimate because it may be lower due to skipped addresses (existing devices)
-		sz, _ := ipnet.Mask.Size()
+		sz, bits := ipnet.Mask.Size()
+		if bits == 8*net.IPv6len {
+			// an IPv4-mapped CIDR (::ffff:a.b.c.d/n) carries a 128 bit mask
+			sz -= 8 * (net.IPv6len - net.IPv4len)
+		}
 		estimatedProbes += int(computeNetSz(sz))
 	}
 
